@@ -97,6 +97,19 @@ def run():
             _quiet(lambda: chords.determine(c, True, True, True))
             _quiet(lambda: chords.first_inversion(c))
             _quiet(lambda: c.append("X"))
+    # chord recognition of every diatonic triad and seventh of every key under every combination of its three flags, the
+    # combinations taken in an order that depends on the chord (what was answered under one combination must not be what
+    # is answered under another)
+    combos = [(sh, ni, npoly) for sh in (False, True) for ni in (False, True) for npoly in (False, True)]
+    n_ch = 0
+    for k in list(keys.major_keys) + list(keys.minor_keys):
+        for ch in (_quiet(lambda: chords.sevenths(k)) or []) + (_quiet(lambda: chords.triads(k)) or []):
+            n_ch += 1
+            order = combos[n_ch % 8:] + combos[:n_ch % 8]
+            if n_ch % 2:
+                order = order[::-1]
+            for (sh, ni, npoly) in order:
+                _quiet(lambda: chords.determine(list(ch), sh, ni, npoly))
     _quiet(lambda: progressions.substitute(["I", "IV", "V7", "VIIdim7"], 3, 2))
     _quiet(lambda: progressions.substitute_harmonic(["V7"], 0))
     # every substitution rule, where it applies and where it does not, with the caller adding to the list it got
